@@ -82,11 +82,15 @@ class Unit:
                 elif key == "insert":
                     m = re.match(r"file=(\S+)\s+before=<<(.*)>>\s*$", rest)
                     m2 = re.match(r"file=(\S+)\s+loop=(\S+)#(\d+)\s*$", rest)
+                    m3 = re.match(r"file=(\S+)\s+(fn|struct)=(\S+)\s*$", rest)
                     if m:
                         cur_insert = (m.group(1), m.group(2).strip(), [])
                     elif m2:
                         # structural anchor: the n-th loop (textual order) of fn <name> ([Type::]name)
                         cur_insert = (m2.group(1), ("loop", m2.group(2), int(m2.group(3))), [])
+                    elif m3:
+                        # structural anchor: the item `fn [Type::]name` / `struct Name`, whatever its signature text
+                        cur_insert = (m3.group(1), (m3.group(2), m3.group(3), 0), [])
                     else:
                         raise Undecided(f"{self.path}: bad //@insert: {rest}")
                     self.inserts.append(cur_insert)
@@ -324,6 +328,24 @@ def apply_units(dest, units, only_harnesses=None):
             p = os.path.join(dest, f)
             if not os.path.exists(p):
                 raise Undecided(f"lost anchor: file {f} does not exist (unit {u.name})")
+            if isinstance(before, tuple) and before[0] in ("fn", "struct"):
+                import verus_run
+                text = open(p).read()
+                if before[0] == "fn":
+                    impl, _, name = before[1].rpartition("::")
+                    a, _o, _b = verus_run.find_fn(text, name, impl or None)
+                else:
+                    a, _o, _b = verus_run.find_struct(text, before[1])
+                    a = text.rfind("\n", 0, a) + 1
+                tl = text.split("\n")
+                k = text.count("\n", 0, a)
+                indent = re.match(r"\s*", tl[k]).group(0)
+                while k > 0 and (tl[k - 1].strip().startswith("#[") or tl[k - 1].strip().startswith("///")):
+                    k -= 1
+                tl[k:k] = [indent + l for l in lines]
+                open(p, "w").write("\n".join(tl))
+                report["inserted_attrs"].append({"file": f, "before": f"{before[0]} {before[1]}", "lines": lines})
+                continue
             if isinstance(before, tuple):
                 import verus_run
                 text = open(p).read()
@@ -361,7 +383,14 @@ def apply_units(dest, units, only_harnesses=None):
             raise Undecided(f"lost anchor: file {u.file} does not exist (unit {u.name})")
         src = open(p).read()
         for need in u.needs:
-            if need not in src:
+            # anchors are deliberately loose: a function is identified by its NAME (a changed signature that still
+            # type-checks with the harness must reach the verifier; one that does not fails the staged build -> exit 2)
+            m = re.search(r"\bfn\s+(\w+)", need)
+            if m:
+                ok = re.search(r"\bfn\s+" + re.escape(m.group(1)) + r"\b", src) is not None
+            else:
+                ok = re.sub(r"\s+", " ", need.strip().rstrip("{").strip()) in re.sub(r"\s+", " ", src)
+            if not ok:
                 raise Undecided(f"lost anchor: <<{need}>> not found in {u.file} (unit {u.name})")
         mod = f"\n\n#[cfg(kani)]\n#[allow(unused, non_snake_case, dead_code)]\npub(crate) mod {u.modname} {{\n    use super::*;\n{u.body}\n}}\n"
         open(p, "w").write(src + mod)
